@@ -26,7 +26,7 @@ RULE = (
     "restricted by explicit candidate lists / dead-end / distinct-endpoint arguments dealt from the whole grid) under the same RNG schedule; distinct = distinct (spec, output array, metadata) digests; non-trivial = >= 2 cells and at least one non-default argument"
 )
 LEVEL_TEXT = (
-    "Seeded search over generator arguments and the generator's own random choices (owned RNG with adversarial per-site policies, plus real seeded twins); the recorded metadata is compared with a union-find/BFS reachability model of the returned array, and endpoint sampling is run under the same schedule, both unrestricted and restricted by caller-supplied candidate lists (cells inside and outside the recorded component), dead-end and distinct-endpoint arguments. Arguments are also varied in how the caller spells them (shape as narrow-typed array / list / tuple, start cell as a caller-owned buffer overwritten after the call), grids include sides beyond 128 cells, and a violating run is reported together with the runs that preceded it in its process. Sampling, not proof.",
+    "Seeded search over generator arguments and the generator's own random choices (owned RNG with adversarial per-site policies, plus real seeded twins); the recorded metadata is compared with a union-find/BFS reachability model of the returned array, and endpoint sampling is run under the same schedule, both unrestricted and restricted by caller-supplied candidate lists (cells inside and outside the recorded component), dead-end and distinct-endpoint arguments. Arguments are also varied in how the caller spells them (shape as narrow-typed array / list / tuple or as one array rewritten in place for every grid of a batch process, start cell as a caller-owned buffer overwritten after the call), grids include sides beyond 128 cells, and a violating run is reported together with the runs that preceded it in its process. Sampling, not proof.",
     "Trusted: NumPy, the SimRNG model of the RNG entry points (values checked against the API's support; real-RNG twin in every batch).",
 )
 
